@@ -596,7 +596,8 @@ def expected(case):
           cols = []
           for c in range(n_in):
             if isinstance(parts[0][c], dict):
-              cols.append({k: [e for p in parts for e in p[c][k]] for k in parts[0][c]})
+              cols.append({k: [e for p in parts for e in p[c][k]] for k in parts[0][c]
+                           if all(isinstance(p[c].get(k), list) for p in parts)})
             else:
               cols.append([e for p in parts for e in p[c]])
           put(a, sj, cols)
@@ -811,12 +812,15 @@ def mask_slicer(rng, world, sig, two_d=False):
     choices = [['np0'], ['np0'], ['m0'], []]
     if sig is not None and len(sig) == 2:
       choices += [['m0', 't'], ['t', 'np0'], ['np0', 'np0'], ['m0', 'm0'], ['np0', 'm0']]
+    if sig is not None and tuple(sig) == ('d',):       # dict x dict masks for a dict-valued input
+      choices += [[{'dict': [['x', 'm0'], ['y', 't']]}], [{'dict': [['x', 'm0']]}],
+                  [{'dict': [['y', 'f'], ['x', 'm0']]}], [{'dict': [['z', 't'], ['x', 'm0'], ['y', 'm0']]}]] * 2
     layout = rng.choice(choices)
     key = rng.choice(['a', 'b'])
     sl = dict(kind='mask', keys=[key], name=['mk_' + key], layout=layout)
     if 't' in layout and repl is None:
       repl = rng.choice([0, 5])      # filtering only one of two aligned columns would misalign them
-    if two_d and any(t.startswith('m') for t in layout):
+    if two_d and any(isinstance(t, str) and t.startswith('m') for t in layout):
       repl = None                    # a list mask replaces a whole 2-D row by one scalar (ragged)
   else:
     if tuple(sig) == ('p', 'q'):
@@ -869,7 +873,7 @@ def gen_random(rng):
     elif rng.random() < 0.7:
       slicers.append(row_slicer(rng))
     else:
-      slicers.append(mask_slicer(rng, world, sig if sig is not None and len(sig) == 2 else None, two_d))
+      slicers.append(mask_slicer(rng, world, sig if sig is not None and (len(sig) == 2 or tuple(sig) == ('d',)) else None, two_d))
   slicers = dedup_names(slicers)
   case = dict(aggs=aggs, slicers=slicers, batches=gen_stream(rng, world))
   # SELF input: the whole batch is the (dict) input, every leaf is masked: all columns numpy, all row-aligned
@@ -897,7 +901,7 @@ def gen_systematic(rng):
       for sizes in patterns:
         a = mk_agg(rng, kind, ins, 0)
         two_d = ins is None or 'm' in ins
-        sl = (mask_slicer(rng, 'flat', ins if ins is not None and len(ins) == 2 else None, two_d) if which == 'mask'
+        sl = (mask_slicer(rng, 'flat', ins if ins is not None and (len(ins) == 2 or ins == ['d']) else None, two_d) if which == 'mask'
               else row_slicer(rng, which))
         case = dict(aggs=[a], slicers=[sl], batches=gen_stream(rng, 'flat', sizes=sizes))
         case['np'] = ['a', 'b', 'x', 'y', 'm', 'd'] if ins is None else ['d']
@@ -1044,7 +1048,7 @@ REQUIRED = ['aggs:1', 'aggs:2', 'aggs:3', 'slicers:0', 'slicers:1', 'slicers:2',
             'disable_slicing', 'input:SELF', 'input:kwargs', 'outkeys:1/2', 'outkeys:2/2',
             'slicer:single', 'slicer:cross', 'slicer:within', 'slicer:within-cross', 'slicer:fn:parity', 'slicer:fn:self_and_neg',
             'slicer:fn:both', 'slicer:fn:pair', 'slicer:fn:small', 'slicer:mask:one', 'slicer:mask:per-input', 'slicer:mask:none',
-            'mask:np', 'mask:list', 'mask:t', 'mode:replace', 'mode:filter', 'slice-first-seen-late', 'empty-stream', 'empty-batch',
+            'mask:np', 'mask:list', 'mask:t', 'mask:dict', 'mode:replace', 'mode:filter', 'slice-first-seen-late', 'empty-stream', 'empty-batch',
             'entry:__call__', 'malformed:missing_input', 'malformed:dup_out', 'malformed:dup_slice', 'malformed:too_many_out',
             'malformed:unhashable', 'malformed:missing_feature']
 
@@ -1059,7 +1063,7 @@ def gen_cases(ctx):
       yield case
   yield from counted(ctx.corpus())
   yield from counted(gen_systematic(rng))
-  n = 500 if ctx.quick else 12000
+  n = 1500 if ctx.quick else 25000
   yield from counted(gen_random(rng) for _ in range(n))
   yield from counted(gen_malformed(rng) for _ in range(n // 9))
 
